@@ -3,6 +3,8 @@ package props
 import (
 	"context"
 	"fmt"
+	"os"
+	"path/filepath"
 	"sort"
 	"strings"
 	"time"
@@ -34,6 +36,14 @@ type hEnv struct {
 	// afterCall runs right after the lungo call returned and before anything
 	// is scribbled over.
 	afterCall func()
+	// reopen closes the engine and opens a new one on the same store (file
+	// backed environments only).
+	reopen func() error
+	// age closes the engine, rewrites the stored change log so that every
+	// event is two hours older, and reopens with tight retention options, so
+	// that the next commits truncate the log.
+	age     func() error
+	cleanup func()
 }
 
 func openMem() (*hEnv, error) {
@@ -48,6 +58,83 @@ func (h *hEnv) close() {
 	if h.engine != nil {
 		h.engine.Close()
 	}
+	if h.cleanup != nil {
+		h.cleanup()
+	}
+}
+
+// openFile opens an engine on a fresh single-file store.
+func openFile() (*hEnv, error) {
+	base := os.Getenv("VERIF_WORK")
+	if base == "" {
+		base = os.TempDir()
+	}
+	dir, err := os.MkdirTemp(base, "c06-")
+	if err != nil {
+		return nil, err
+	}
+	path := filepath.Join(dir, "db.bson")
+	h := &hEnv{cleanup: func() { _ = os.RemoveAll(dir) }}
+	opts := lungo.Options{ExpireInterval: 24 * time.Hour}
+	open := func() error {
+		o := opts
+		o.Store = lungo.NewFileStore(path, 0o644)
+		client, engine, err := lungo.Open(context.Background(), o)
+		if err != nil {
+			return err
+		}
+		h.client, h.engine = client, engine
+		return nil
+	}
+	if err := open(); err != nil {
+		h.cleanup()
+		return nil, err
+	}
+	h.reopen = func() error {
+		h.engine.Close()
+		h.engine = nil
+		return open()
+	}
+	h.age = func() error {
+		h.engine.Close()
+		h.engine = nil
+		store := lungo.NewFileStore(path, 0o644)
+		cat, err := store.Load()
+		if err != nil {
+			return err
+		}
+		oplog := cat.Namespaces[lungo.Oplog]
+		aged := mongokit.NewCollection(false)
+		for _, ev := range oplog.Documents.List {
+			nd := deepCopyBin(*ev).(bson.D)
+			for i := range nd {
+				switch nd[i].Key {
+				case "_id":
+					id := asD(nd[i].Value)
+					for j := range id {
+						if ts, ok := id[j].Value.(primitive.Timestamp); ok && id[j].Key == "ts" {
+							id[j].Value = primitive.Timestamp{T: ts.T - 7200, I: ts.I}
+						}
+					}
+				case "clusterTime":
+					if ts, ok := nd[i].Value.(primitive.Timestamp); ok {
+						nd[i].Value = primitive.Timestamp{T: ts.T - 7200, I: ts.I}
+					}
+				}
+			}
+			if _, err := aged.Insert(&nd); err != nil {
+				return err
+			}
+		}
+		cat.Namespaces[lungo.Oplog] = aged
+		if err := store.Store(cat); err != nil {
+			return err
+		}
+		opts.MinOplogSize, opts.MaxOplogSize = 2, 1000
+		opts.MinOplogAge, opts.MaxOplogAge = time.Second, time.Minute
+		return open()
+	}
+	return h, nil
 }
 
 func splitNS(ns string) (string, string) {
@@ -180,6 +267,22 @@ func (h *hEnv) execStep(step bson.D) (res bson.D, perr error) {
 		return optD(step, "sort"), optD(step, "proj"), asI(getD(step, "skip")), asI(getD(step, "limit"))
 	}
 	switch op {
+	case "age":
+		if h.age == nil {
+			return bson.D{{Key: "err", Value: ""}}, nil
+		}
+		if err := h.age(); err != nil {
+			return nil, fmt.Errorf("ageing the stored change log failed: %v", err)
+		}
+		return bson.D{{Key: "err", Value: ""}}, nil
+	case "reopen":
+		if h.reopen == nil {
+			return bson.D{{Key: "err", Value: ""}}, nil
+		}
+		if err := h.reopen(); err != nil {
+			return nil, fmt.Errorf("closing and reopening the database failed: %v", err)
+		}
+		return bson.D{{Key: "err", Value: ""}}, nil
 	case "insertOne":
 		doc := rec.argD(freshD(asD(getD(step, "doc"))))
 		r, err := h.coll(ns).InsertOne(ctx, doc)
@@ -553,6 +656,13 @@ type nsDump struct {
 // change-log events (timestamps) are blanked so dumps of different engines
 // can be compared.
 func catalogDump(cat *lungo.Catalog, normalise bool) string {
+	return catalogDumpOpts(cat, normalise, normalise)
+}
+
+// catalogDumpOpts: normalise blanks event timestamps and generated ObjectIDs;
+// sortPositions renders index lists as sorted position sets (the order among
+// equal keys depends on document addresses and differs between engines).
+func catalogDumpOpts(cat *lungo.Catalog, normalise, sortPositions bool) string {
 	var handles []lungo.Handle
 	for h := range cat.Namespaces {
 		handles = append(handles, h)
@@ -591,7 +701,7 @@ func catalogDump(cat *lungo.Catalog, normalise bool) string {
 			// engine, compared only before/after on the same engine) unless
 			// normalising
 			list := ix.List()
-			if normalise {
+			if sortPositions {
 				ps := make([]int, len(list))
 				for i, d := range list {
 					ps[i] = pos[d]
